@@ -42,6 +42,9 @@ static int cnt = 3;
 static rsa_t rsa_pub, rsa_prv;
 static bn_t ph_pub;
 static phpe_t ph_prv;
+static rabin_t rab_pub, rab_prv;
+static bdpe_t bd_pub, bd_prv;
+static int have_keys2 = 0;
 static bn_t ec_d;
 static ec_t ec_q;
 static bn_t bls_d;
@@ -736,6 +739,35 @@ OP(cap_ecies_dec) {
 	if (cp_ecies_enc(PR[0], buf2, &cl, msg, msg_len, ec_q) != RLC_OK) { out_int(-2); return; }
 	CAPRUN("cp_ecies_dec", need, W(r = cp_ecies_dec(buf, &ol, PR[0], buf2, cl, ec_d)), W(r = cp_ecies_dec(o, &ol, PR[0], buf2, cl, ec_d)));
 }
+OP(cap_rabin_enc) {
+	int detcmp = 0;
+	size_t ml = 1 + msg_len % 24;
+	CAPRUN("cp_rabin_enc", need, W(r = cp_rabin_enc(buf, &ol, msg, ml, rab_pub)), W(r = cp_rabin_enc(o, &ol, msg, ml, rab_pub)));
+}
+OP(cap_rabin_dec) {
+	int detcmp = 1;
+	size_t ml = 1 + msg_len % 24, cl = sizeof(buf2);
+	if (cp_rabin_enc(buf2, &cl, msg, ml, rab_pub) != RLC_OK) { out_int(-2); return; }
+	CAPRUN("cp_rabin_dec", need, W(r = cp_rabin_dec(buf, &ol, buf2, cl, rab_prv)), W(r = cp_rabin_dec(o, &ol, buf2, cl, rab_prv)));
+}
+OP(cap_bdpe_enc) {
+	int detcmp = 0;
+	dig_t in = (dig_t)(msg[0] % 11);
+	CAPRUN("cp_bdpe_enc", need, W(r = cp_bdpe_enc(buf, &ol, in, bd_pub)), W(r = cp_bdpe_enc(o, &ol, in, bd_pub)));
+}
+OP(cap_ibe_enc) {
+	int detcmp = 0;
+	size_t ml = 1 + msg_len % 32;
+	if (cp_ibe_gen(R[5], G1[3]) != RLC_OK) { out_int(-2); return; }
+	CAPRUN("cp_ibe_enc", need, W(r = cp_ibe_enc(buf, &ol, msg, ml, "carol", G1[3])), W(r = cp_ibe_enc(o, &ol, msg, ml, "carol", G1[3])));
+}
+OP(cap_ibe_dec) {
+	int detcmp = 1;
+	size_t ml = 1 + msg_len % 32, cl = sizeof(buf2);
+	if (cp_ibe_gen(R[5], G1[3]) != RLC_OK || cp_ibe_gen_prv(G2[3], "carol", R[5]) != RLC_OK) { out_int(-2); return; }
+	if (cp_ibe_enc(buf2, &cl, msg, ml, "carol", G1[3]) != RLC_OK) { out_int(-3); return; }
+	CAPRUN("cp_ibe_dec", need, W(r = cp_ibe_dec(buf, &ol, buf2, cl, G2[3])), W(r = cp_ibe_dec(o, &ol, buf2, cl, G2[3])));
+}
 /* recodings: the length-in/length-out parameter counts one-byte elements.  The block handed to the second call ends
  * exactly at its capacity (eight bytes of slack in front, so that capacity zero is a pointer to no storage at all). */
 #define CAPREC(WHAT, NEED_OF_OL, CALL) do { \
@@ -774,9 +806,22 @@ OP(cap_rec_tnaf) {
 	size_t w = REC_W; int8_t u = ((B[6]->dp[0] >> 9) & 1) ? 1 : -1; size_t m = ((B[6]->dp[0] >> 10) & 1) ? 283 : 233;
 	CAPREC("bn_rec_tnaf", ol, W(bn_rec_tnaf((int8_t *)o, &ol, B[0], u, m, w)));
 }
+/* the regular form is defined for scalars whose two reduced components are odd (the test suite draws scalars until
+ * they are): in three of four instances the operand is stepped to the next such value */
 OP(cap_rec_rtnaf) {
 	size_t w = REC_W; int8_t u = ((B[6]->dp[0] >> 9) & 1) ? 1 : -1; size_t m = ((B[6]->dp[0] >> 10) & 1) ? 283 : 233;
-	CAPREC("bn_rec_rtnaf", ol, W(bn_rec_rtnaf((int8_t *)o, &ol, B[0], u, m, w)));
+	int ok = 0;
+	bn_abs(R[1], B[0]);
+	if (bn_bits(R[1]) + 8 > (size_t)RLC_BN_BITS) bn_rsh(R[1], R[1], 16);
+	if ((B[6]->dp[0] >> 11) & 3) {
+		for (int i = 0; i < 16 && !ok; i++) {
+			bn_add_dig(R[1], R[1], 1);
+			bn_rec_tnaf_mod(R[2], R[3], R[1], u, m);
+			ok = !bn_is_even(R[2]) && !bn_is_even(R[3]);
+		}
+		if (!ok) { out_int(-4); return; }
+	}	/* else: whatever parity the components have - to be refused, not recoded with digits outside the tables */
+	CAPREC("bn_rec_rtnaf", ol, W(bn_rec_rtnaf((int8_t *)o, &ol, R[1], u, m, w)));
 }
 OP(rand_reseed) { W(rand_seed(msg, msg_len); rand_bytes(buf, 40)); out_bytes(buf, 40); }
 
@@ -1081,6 +1126,7 @@ static const op_t ops[] = {
 	E(md_kdf, 0), E(md_mgf, 0), E(md_hmac, 0), E(md_xmd, 0), E(bc_aes_cbc, 0), E(rand_reseed, 0), E(cap_aes_enc, 0), E(cap_aes_dec, 0), E(cap_rsa_enc, 0), E(cap_rsa_dec, 0),
 	E(cap_rsa_sig, 0), E(cap_ecies_enc, 0), E(cap_ecies_dec, 0),
 	E(cap_rec_naf, 0), E(cap_rec_win, 0), E(cap_rec_slw, 0), E(cap_rec_reg, 0), E(cap_rec_jsf, 0), E(cap_rec_tnaf, 0), E(cap_rec_rtnaf, 0),
+	E(cap_rabin_enc, 0), E(cap_rabin_dec, 0), E(cap_bdpe_enc, 0), E(cap_ibe_enc, 1), E(cap_ibe_dec, 1),
 	E(mpc_sss, 0), E(mpc_mt, 0),
 	E(cp_rsa_enc_dec, 0), E(cp_rsa_sig_ver, 0), E(cp_rsa_gen_small, 0), E(cp_phpe, 0), E(cp_ecdsa, 0),
 	E(cp_ecdsa_gen, 0), E(cp_ecss, 0), E(cp_ecdh, 0), E(cp_ecmqv, 0), E(cp_ecies, 0), E(cp_vbnn, 0), E(cp_pokdl, 0),
@@ -1180,6 +1226,8 @@ static void engine_boot(void) {
 	bn_null(bls_d); bn_new(bls_d); g2_null(bls_q); g2_new(bls_q);
 	rsa_null(rsa_pub); rsa_null(rsa_prv); rsa_new(rsa_pub); rsa_new(rsa_prv);
 	bn_null(ph_pub); bn_new(ph_pub); phpe_null(ph_prv); phpe_new(ph_prv);
+	rabin_null(rab_pub); rabin_null(rab_prv); rabin_new(rab_pub); rabin_new(rab_prv);
+	bdpe_null(bd_pub); bdpe_null(bd_prv); bdpe_new(bd_pub); bdpe_new(bd_prv);
 }
 
 /* Long-lived keys are generated on first use, outside any fault window (a restart after a
@@ -1196,10 +1244,23 @@ static void need_keys(void) {
 	have_keys = 1;
 }
 
+static void need_keys2(void) {
+	if (have_keys2) return;
+	{
+		uint8_t ks[16];
+		memset(ks, 0x53, sizeof(ks));
+		sim_reseed_fresh(ks, sizeof(ks));
+	}
+	if (cp_rabin_gen(rab_pub, rab_prv, 512) != RLC_OK) _exit(8);
+	if (cp_bdpe_gen(bd_pub, bd_prv, 11, 512) != RLC_OK) _exit(9);
+	have_keys2 = 1;
+}
+
 static void need_keys(void);
 static void run_op(const op_t *op, const uint8_t *seed, size_t seed_len, uint64_t fill, long fail1, long fail2,
 		int *thrown) {
 	if (strncmp(op->name, "cp_rsa", 6) == 0 || strncmp(op->name, "cp_phpe", 7) == 0 || strncmp(op->name, "cap_rsa", 7) == 0) need_keys();
+	if (strncmp(op->name, "cap_rabin", 9) == 0 || strncmp(op->name, "cap_bdpe", 8) == 0) need_keys2();
 	if (cur_curve < 0) set_curve("NIST_P256");
 	sim_reseed_fresh(seed, seed_len);
 	setup_inputs();
